@@ -349,7 +349,18 @@ class Session:
             "nchan": len(ts._channels.values()) + len(ts.server_accepts) + len(ts.channels_seen),
             "delivered": delivered,
             "exc": self._new_exc(),
+            "username": self._username(),
         }
+
+    def _username(self):
+        """what Transport.get_username() reports (hex), 'None', or 'err' (sub-handler without get_username)"""
+        try:
+            u = self.ts.get_username()
+        except Exception:
+            return "err"
+        if u is None:
+            return "None"
+        return (u.encode("utf-8", "surrogateescape") if isinstance(u, str) else bytes(u)).hex() or "-"
 
     def _new_exc(self):
         """class name of the exception saved by the transport *during this step* (None if unchanged)"""
@@ -836,7 +847,7 @@ def canon_real(o, prev_exc):
     cbs = [c for c in o["cbs"] if not c.startswith("gss:")]
     return {"cbs": "|".join(cbs), "sent": ",".join(x.hex() for x in o["sent"]),
             "active": int(o["active"]), "authed": int(o["authed"]), "chans": o["nchan"],
-            "excname": exc, "wire": o.get("wire")}
+            "excname": exc, "wire": o.get("wire"), "username": o.get("username")}
 
 
 def driver_lines(sid, steps, gss_kex):
